@@ -639,6 +639,8 @@ def c15(tier, seed):
         {'script': 'for x in a b\n    ./st $x 3\n    break\ndone\n', 'files': F, 'expect_stdout': 'a\n', 'expect_rc': 3, 'area': 'script:status:loop-with-break'},
         {'script': './st z 0\nfor x in a b\n    ./st $x 4\ndone\n', 'files': F, 'expect_stdout': 'z\na\nb\n', 'expect_rc': 4, 'area': 'script:status:loop'},
         {'script': 'function g {\n    ./st g 2\n}\nfunction h() {\n    g\n}\nh\necho "st=$?"\n', 'files': F, 'expect_stdout': 'g\nst=2\n', 'area': 'function:nested-status'},
+        {'script': './pargs `echo $2` $(echo $1) "`echo $1`" x`echo $2`y\nfunction f() {\n    ./pargs `echo $1$0`\n}\nf q\n', 'args': ['AA', 'BB'], 'files': F,
+         'expect_stdout': _argv(['BB', 'AA', 'AA', 'xBBy']) + _argv(['qf']), 'area': 'script:arguments:inside-a-backquoted-command'},
         {'script': 'set -e\nif ./st t 1\n    echo no\nfi\necho after\nwhile ./st w 1\n    echo no\ndone\nif ./st u 1\n    echo no\nelse\n    echo else\nfi\nif ./st v 2\n    echo no\nfi\n', 'files': F,
          'expect_stdout': 't\nafter\nw\nu\nelse\nv\n', 'expect_rc': 0, 'area': 'set-e:a-failing-test-is-not-a-failure'},
         {'script': 'function f() {\n    echo one\n}\nf\nfunction f() {\n    echo two $1\n}\nsource lib.sh\nf x\n', 'files': dict(F, **{'lib.sh': 'function g() {\n    echo g\n}\n'}), 'expect_stdout_any': ['two\ntwo x\n', 'one\ntwo x\n'], 'area': 'function:defined-again'},
